@@ -84,14 +84,14 @@ def corr(ctx):
     for (which, mask, metric, algo, cfg, plan), o in zip(metas, out):
         K, F, T = mask.shape
         if which == 'dhtv':
-            wantm = pa.DHTVPermutationAlignment(**cfg, similarity_metric=metric, algorithm=algo).calculate_mapping(mask.copy())
+            wantm = pa.DHTVPermutationAlignment(**cfg, similarity_metric=metric, algorithm=algo).calculate_mapping(mask.copy(order='K'))
             got = parse_ints(o.split('|')[0]).reshape(K, F)
             feats = parse_floats(o.split('|')[1]).reshape(K, F, T)
             margin = pyref.ref_dhtv(mask, plan, metric, algo)[2]
             f0 = pyref.vec_norm(mask) if metric == 'cos' else mask
             net_ok = np.allclose(feats, pa.apply_mapping(f0, wantm), rtol=1e-12, atol=1e-300)
         else:
-            wantm = pa.GreedyPermutationAlignment(metric).calculate_mapping(mask.copy())
+            wantm = pa.GreedyPermutationAlignment(metric).calculate_mapping(mask.copy(order='K'))
             got = parse_ints(o).reshape(K, F)
             margin = pyref.ref_greedy_aligner(mask, metric)[1]
             net_ok = True
@@ -169,16 +169,16 @@ def blind_alignment_restores_order(aligner, metric, algorithm, cfg, base, perm):
             return Skip('first segment majority < 70 %')
         if any(x < 2 / 3 - 1e-12 for x in first_segment_and_overlap(plan, F)):
             return Skip('a later segment overlaps the aligned band by < 2/3')
-    mapping = al.calculate_mapping(mask.copy())
+    mapping = al.calculate_mapping(mask.copy(order='K'))
     net = perm[mapping, np.arange(F)]          # class of `base` found at (k, f) after alignment
     if not np.all(net == net[:, :1]):
         bad = [f for f in range(F) if not np.array_equal(net[:, f], net[:, 0])]
         return Fail(f'order-not-constant-{aligner}', f'{aligner}/{metric}/{algorithm}: bins {bad[:6]} keep another class order '
                     f'(net {net[:, bad[0]].tolist()} vs {net[:, 0].tolist()})')
-    ident = al.calculate_mapping(base.copy())
+    ident = al.calculate_mapping(base.copy(order='K'))
     if not np.array_equal(ident, np.repeat(np.arange(K)[:, None], F, 1)):
         return Fail(f'consistent-mask-not-identity-{aligner}', f'{aligner}/{metric}/{algorithm}: consistent mask mapped to {ident[:, :4].tolist()}...')
-    if not np.array_equal(al(base.copy()), base):
+    if not np.array_equal(al(base.copy(order='K')), base):
         return Fail('consistent-mask-changed', 'an already consistent mask is not returned unchanged')
 
 
@@ -186,12 +186,12 @@ def blind_alignment_restores_order(aligner, metric, algorithm, cfg, base, perm):
 def mapping_is_net_reordering(aligner, metric, algorithm, cfg, mask):
     K, F, T = mask.shape
     if aligner == 'greedy':
-        got = pa.GreedyPermutationAlignment(metric, algorithm).calculate_mapping(mask.copy())
+        got = pa.GreedyPermutationAlignment(metric, algorithm).calculate_mapping(mask.copy(order='K'))
         want, margin = pyref.ref_greedy_aligner(mask, metric)
         feats = None
     else:
         al = pa.DHTVPermutationAlignment(**cfg, similarity_metric=metric, algorithm=algorithm)
-        got = al.calculate_mapping(mask.copy())
+        got = al.calculate_mapping(mask.copy(order='K'))
         want, feats, margin = pyref.ref_dhtv(mask, al.alignment_plan, metric, algorithm)
     if margin < 1e-9:
         return Skip('tie within rounding')
